@@ -108,6 +108,52 @@ theorem readItems_then_finished (items : List CItem) (s : CIS) (hc : 10 ≤ s.ca
   · exact verifyFinished_ok s' (by omega) hinv' (by rw [hp', hr])
   · exact verifyFinished_leftover s' (by omega) hinv' (by rw [hp']; exact hr)
 
+/-- an item cut strictly inside its encoding: `EndOfStreamException` -/
+theorem readItem_cut (s : CIS) (hc : 10 ≤ s.cap) (hinv : s.Inv) (i : CItem) (hi : i.ok) (more : Bytes)
+    (hp : s.pending ++ more = i.enc) (hm : more ≠ []) : s.readItem i = .eos := by
+  have hlen : s.pending.length < i.enc.length := by
+    have := congrArg List.length hp
+    have hm' : 0 < more.length := List.length_pos_iff.mpr hm
+    simp at this; omega
+  cases i with
+  | byte b =>
+    have h0 : s.pending = [] := by
+      cases h : s.pending with
+      | nil => rfl
+      | cons a t => rw [h] at hlen; simp [CItem.enc] at hlen
+    simp [readItem, readByte_trunc s hinv h0, lift]
+  | var32 n =>
+    simp [readItem, readVar32_trunc s hc hinv n more hi (by simpa [CItem.enc] using hp) hm, lift]
+  | var64 n =>
+    simp [readItem, readVar64_trunc s hc hinv n more hi (by simpa [CItem.enc] using hp) hm, lift]
+  | bytes bs =>
+    simp [readItem, readBytes_trunc s (by omega) hinv bs.length (by simpa [CItem.enc] using hlen), lift]
+
+/-- **A truncated sequence ends in `EndOfStreamException`**: whatever strict prefix of the written data the
+    stream holds, cut between items or inside one. -/
+theorem readItems_cut (items : List CItem) (s : CIS) (hc : 10 ≤ s.cap) (hinv : s.Inv)
+    (hi : ∀ i ∈ items, i.ok) (more : Bytes) (hm : more ≠ [])
+    (hp : s.pending ++ more = encCItems items) : s.readItems items = .eos := by
+  induction items generalizing s with
+  | nil =>
+    have : more = [] := by
+      have := congrArg List.length hp
+      simp [encCItems] at this
+      exact this.2
+    exact absurd this hm
+  | cons i r ih =>
+    simp only [encCItems] at hp
+    rcases List.append_eq_append_iff.mp hp with ⟨a, h1, h2⟩ | ⟨c, h1, h2⟩
+    · by_cases ha : a = []
+      · subst ha
+        obtain ⟨s1, e1, hp1, hinv1, hc1⟩ := readItem_ok s hc hinv i (hi i (by simp)) [] (by simpa using h1.symm)
+        have := ih s1 (by omega) hinv1 (fun j hj => hi j (by simp [hj])) (by rw [hp1]; simpa using h2)
+        simp [readItems, e1, this, lift]
+      · simp [readItems, readItem_cut s hc hinv i (hi i (by simp)) a h1.symm ha]
+    · obtain ⟨s1, e1, hp1, hinv1, hc1⟩ := readItem_ok s hc hinv i (hi i (by simp)) c h1
+      have := ih s1 (by omega) hinv1 (fun j hj => hi j (by simp [hj])) (by rw [hp1]; exact h2.symm)
+      simp [readItems, e1, this, lift]
+
 end CIS
 
 end Yardl
